@@ -262,6 +262,302 @@ let res : List UInt8 := List.replicate (2 * fb) 0;
 (let res := goPutAt res 0 (P.putElement pX);
 res))
 
+/-! ### G2 over a tower: component-wise element codecs -/
+
+def goSetBytes2E2 {F B : Type} (fb : Nat) (g : F → F) (P : Prims F) (Q : Comps F B) (pX pY : F) (buf : List UInt8) (subGroupCheck : Bool) : Except GoErr (F × F × Nat) :=
+(if (decide (buf.length < (2 * fb))) then
+(.error .ErrShortBuffer)
+else
+(if ¬(0 < buf.length) then .error .outOfRange else
+(let mData : UInt8 := ((buf.getD 0 0) &&& (192 : UInt8));
+(let k_2 := fun (_ : Unit) => ((if (mData == (64 : UInt8)) then
+(if ¬((2 * fb) ≤ buf.length ∧ 0 < buf.length) then .error .outOfRange else
+(if (!(goIsZeroed ((buf.getD 0 0) &&& (~~~(192 : UInt8))) (goSlice buf 1 (2 * fb)))) then
+(.error .ErrInvalidInfinityEncoding)
+else
+(let pX := P.zero;
+(let pY := P.zero;
+(.ok (pX, pY, (2 * fb)))))))
+else
+(if (mData == (0 : UInt8)) then
+(if ¬(fb ≤ buf.length) then .error .outOfRange else
+(match Q.sbc (goSlice buf 0 fb) with
+| none => (.error .setBytesCanonical)
+| some v_ => let pX := Q.setComp "A1" pX v_;
+(if ¬((fb * 2) ≤ buf.length) then .error .outOfRange else
+(match Q.sbc (goSlice buf fb (fb * 2)) with
+| none => (.error .setBytesCanonical)
+| some v_ => let pX := Q.setComp "A0" pX v_;
+(if ¬((fb * 3) ≤ buf.length) then .error .outOfRange else
+(match Q.sbc (goSlice buf (fb * 2) (fb * 3)) with
+| none => (.error .setBytesCanonical)
+| some v_ => let pY := Q.setComp "A1" pY v_;
+(if ¬((fb * 4) ≤ buf.length) then .error .outOfRange else
+(match Q.sbc (goSlice buf (fb * 3) (fb * 4)) with
+| none => (.error .setBytesCanonical)
+| some v_ => let pY := Q.setComp "A0" pY v_;
+(if (subGroupCheck && (!(P.isInSubGroup pX pY))) then
+(.error (.new "invalid point: subgroup check failed"))
+else
+(.ok (pX, pY, (4 * fb))))))))))))
+else
+(let bufX : List UInt8 := List.replicate fb 0;
+(if ¬(fb ≤ buf.length) then .error .outOfRange else
+(let bufX := goCopy (goSlice bufX 0 fb) (goSlice buf 0 fb) ++ bufX.drop fb;
+(let bufX := bufX.set 0 ((bufX.getD 0 0) &&& (~~~(192 : UInt8)));
+(match Q.sbc (goSlice bufX 0 fb) with
+| none => (.error .setBytesCanonical)
+| some v_ => let pX := Q.setComp "A1" pX v_;
+(if ¬((fb * 2) ≤ buf.length) then .error .outOfRange else
+(match Q.sbc (goSlice buf fb (fb * 2)) with
+| none => (.error .setBytesCanonical)
+| some v_ => let pX := Q.setComp "A0" pX v_;
+(let YSquared : F := P.zero;
+let Y : F := P.zero;
+(let YSquared := g pX;
+((if (Q.legendre YSquared == (-1 : Int)) then
+(.error (.new "invalid compressed coordinate: square root doesn't exist"))
+else
+(let Y := Q.sqrtU YSquared;
+(let Y := (if (P.lex Y) then
+(let Y := (if (mData == (128 : UInt8)) then
+(let Y := P.neg Y;
+Y)
+else
+Y);
+Y)
+else
+(let Y := (if (mData == (192 : UInt8)) then
+(let Y := P.neg Y;
+Y)
+else
+Y);
+Y));
+(let pY := Y;
+(if (subGroupCheck && (!(P.isInSubGroup pX pY))) then
+(.error (.new "invalid point: subgroup check failed"))
+else
+(.ok (pX, pY, (2 * fb)))))))))))))))))))) : Except GoErr (F × F × Nat));
+if (mData == (0 : UInt8)) then
+(if (decide (buf.length < (4 * fb))) then
+(.error .ErrShortBuffer)
+else
+k_2 ())
+else
+k_2 ()))))
+
+def goSetBytes3E2 {F B : Type} (fb : Nat) (g : F → F) (P : Prims F) (Q : Comps F B) (pX pY : F) (buf : List UInt8) (subGroupCheck : Bool) : Except GoErr (F × F × Nat) :=
+(if (decide (buf.length < (2 * fb))) then
+(.error .ErrShortBuffer)
+else
+(if ¬(0 < buf.length) then .error .outOfRange else
+(let mData : UInt8 := ((buf.getD 0 0) &&& (224 : UInt8));
+(if (goIsMaskInvalid mData) then
+(.error .ErrInvalidEncoding)
+else
+(let k_2 := fun (_ : Unit) => ((if (mData == (192 : UInt8)) then
+(if ¬((2 * fb) ≤ buf.length ∧ 0 < buf.length) then .error .outOfRange else
+(if (!(goIsZeroed ((buf.getD 0 0) &&& (~~~(224 : UInt8))) (goSlice buf 1 (2 * fb)))) then
+(.error .ErrInvalidInfinityEncoding)
+else
+(let pX := P.zero;
+(let pY := P.zero;
+(.ok (pX, pY, (2 * fb)))))))
+else
+(if (mData == (64 : UInt8)) then
+(if ¬((4 * fb) ≤ buf.length ∧ 0 < buf.length) then .error .outOfRange else
+(if (!(goIsZeroed ((buf.getD 0 0) &&& (~~~(224 : UInt8))) (goSlice buf 1 (4 * fb)))) then
+(.error .ErrInvalidInfinityEncoding)
+else
+(let pX := P.zero;
+(let pY := P.zero;
+(.ok (pX, pY, (4 * fb)))))))
+else
+(if (mData == (0 : UInt8)) then
+(if ¬(fb ≤ buf.length) then .error .outOfRange else
+(match Q.sbc (goSlice buf 0 fb) with
+| none => (.error .setBytesCanonical)
+| some v_ => let pX := Q.setComp "A1" pX v_;
+(if ¬((fb * 2) ≤ buf.length) then .error .outOfRange else
+(match Q.sbc (goSlice buf fb (fb * 2)) with
+| none => (.error .setBytesCanonical)
+| some v_ => let pX := Q.setComp "A0" pX v_;
+(if ¬((fb * 3) ≤ buf.length) then .error .outOfRange else
+(match Q.sbc (goSlice buf (fb * 2) (fb * 3)) with
+| none => (.error .setBytesCanonical)
+| some v_ => let pY := Q.setComp "A1" pY v_;
+(if ¬((fb * 4) ≤ buf.length) then .error .outOfRange else
+(match Q.sbc (goSlice buf (fb * 3) (fb * 4)) with
+| none => (.error .setBytesCanonical)
+| some v_ => let pY := Q.setComp "A0" pY v_;
+(if (subGroupCheck && (!(P.isInSubGroup pX pY))) then
+(.error (.new "invalid point: subgroup check failed"))
+else
+(.ok (pX, pY, (4 * fb))))))))))))
+else
+(let bufX : List UInt8 := List.replicate fb 0;
+(if ¬(fb ≤ buf.length) then .error .outOfRange else
+(let bufX := goCopy (goSlice bufX 0 fb) (goSlice buf 0 fb) ++ bufX.drop fb;
+(let bufX := bufX.set 0 ((bufX.getD 0 0) &&& (~~~(224 : UInt8)));
+(match Q.sbc (goSlice bufX 0 fb) with
+| none => (.error .setBytesCanonical)
+| some v_ => let pX := Q.setComp "A1" pX v_;
+(if ¬((fb * 2) ≤ buf.length) then .error .outOfRange else
+(match Q.sbc (goSlice buf fb (fb * 2)) with
+| none => (.error .setBytesCanonical)
+| some v_ => let pX := Q.setComp "A0" pX v_;
+(let YSquared : F := P.zero;
+let Y : F := P.zero;
+(let YSquared := g pX;
+((if (Q.legendre YSquared == (-1 : Int)) then
+(.error (.new "invalid compressed coordinate: square root doesn't exist"))
+else
+(let Y := Q.sqrtU YSquared;
+(let Y := (if (P.lex Y) then
+(let Y := (if (mData == (128 : UInt8)) then
+(let Y := P.neg Y;
+Y)
+else
+Y);
+Y)
+else
+(let Y := (if (mData == (160 : UInt8)) then
+(let Y := P.neg Y;
+Y)
+else
+Y);
+Y));
+(let pY := Y;
+(if (subGroupCheck && (!(P.isInSubGroup pX pY))) then
+(.error (.new "invalid point: subgroup check failed"))
+else
+(.ok (pX, pY, (2 * fb))))))))))))))))))))) : Except GoErr (F × F × Nat));
+if ((mData == (0 : UInt8)) || (mData == (64 : UInt8))) then
+(if (decide (buf.length < (4 * fb))) then
+(.error .ErrShortBuffer)
+else
+k_2 ())
+else
+k_2 ())))))
+
+def goSetBytes3E4 {F B : Type} (fb : Nat) (g : F → F) (P : Prims F) (Q : Comps F B) (pX pY : F) (buf : List UInt8) (subGroupCheck : Bool) : Except GoErr (F × F × Nat) :=
+(if (decide (buf.length < (4 * fb))) then
+(.error .ErrShortBuffer)
+else
+(if ¬(0 < buf.length) then .error .outOfRange else
+(let mData : UInt8 := ((buf.getD 0 0) &&& (224 : UInt8));
+(if (goIsMaskInvalid mData) then
+(.error .ErrInvalidEncoding)
+else
+(let k_2 := fun (_ : Unit) => ((if (mData == (192 : UInt8)) then
+(if ¬((4 * fb) ≤ buf.length ∧ 0 < buf.length) then .error .outOfRange else
+(if (!(goIsZeroed ((buf.getD 0 0) &&& (~~~(224 : UInt8))) (goSlice buf 1 (4 * fb)))) then
+(.error .ErrInvalidInfinityEncoding)
+else
+(let pX := P.zero;
+(let pY := P.zero;
+(.ok (pX, pY, (4 * fb)))))))
+else
+(if (mData == (64 : UInt8)) then
+(if ¬((8 * fb) ≤ buf.length ∧ 0 < buf.length) then .error .outOfRange else
+(if (!(goIsZeroed ((buf.getD 0 0) &&& (~~~(224 : UInt8))) (goSlice buf 1 (8 * fb)))) then
+(.error .ErrInvalidInfinityEncoding)
+else
+(let pX := P.zero;
+(let pY := P.zero;
+(.ok (pX, pY, (8 * fb)))))))
+else
+(if (mData == (0 : UInt8)) then
+(if ¬((fb * 1) ≤ buf.length) then .error .outOfRange else
+(match Q.sbc (goSlice buf (fb * 0) (fb * 1)) with
+| none => (.error .setBytesCanonical)
+| some v_ => let pX := Q.setComp "B1.A1" pX v_;
+(if ¬((fb * 2) ≤ buf.length) then .error .outOfRange else
+(match Q.sbc (goSlice buf (fb * 1) (fb * 2)) with
+| none => (.error .setBytesCanonical)
+| some v_ => let pX := Q.setComp "B1.A0" pX v_;
+(if ¬((fb * 3) ≤ buf.length) then .error .outOfRange else
+(match Q.sbc (goSlice buf (fb * 2) (fb * 3)) with
+| none => (.error .setBytesCanonical)
+| some v_ => let pX := Q.setComp "B0.A1" pX v_;
+(if ¬((fb * 4) ≤ buf.length) then .error .outOfRange else
+(match Q.sbc (goSlice buf (fb * 3) (fb * 4)) with
+| none => (.error .setBytesCanonical)
+| some v_ => let pX := Q.setComp "B0.A0" pX v_;
+(if ¬((fb * 5) ≤ buf.length) then .error .outOfRange else
+(match Q.sbc (goSlice buf (fb * 4) (fb * 5)) with
+| none => (.error .setBytesCanonical)
+| some v_ => let pY := Q.setComp "B1.A1" pY v_;
+(if ¬((fb * 6) ≤ buf.length) then .error .outOfRange else
+(match Q.sbc (goSlice buf (fb * 5) (fb * 6)) with
+| none => (.error .setBytesCanonical)
+| some v_ => let pY := Q.setComp "B1.A0" pY v_;
+(if ¬((fb * 7) ≤ buf.length) then .error .outOfRange else
+(match Q.sbc (goSlice buf (fb * 6) (fb * 7)) with
+| none => (.error .setBytesCanonical)
+| some v_ => let pY := Q.setComp "B0.A1" pY v_;
+(if ¬((fb * 8) ≤ buf.length) then .error .outOfRange else
+(match Q.sbc (goSlice buf (fb * 7) (fb * 8)) with
+| none => (.error .setBytesCanonical)
+| some v_ => let pY := Q.setComp "B0.A0" pY v_;
+(if (subGroupCheck && (!(P.isInSubGroup pX pY))) then
+(.error (.new "invalid point: subgroup check failed"))
+else
+(.ok (pX, pY, (8 * fb))))))))))))))))))))
+else
+(let bufX : List UInt8 := List.replicate fb 0;
+(if ¬(fb ≤ buf.length) then .error .outOfRange else
+(let bufX := goCopy (goSlice bufX 0 fb) (goSlice buf 0 fb) ++ bufX.drop fb;
+(let bufX := bufX.set 0 ((bufX.getD 0 0) &&& (~~~(224 : UInt8)));
+(match Q.sbc (goSlice bufX (fb * 0) (fb * 1)) with
+| none => (.error .setBytesCanonical)
+| some v_ => let pX := Q.setComp "B1.A1" pX v_;
+(if ¬((fb * 2) ≤ buf.length) then .error .outOfRange else
+(match Q.sbc (goSlice buf (fb * 1) (fb * 2)) with
+| none => (.error .setBytesCanonical)
+| some v_ => let pX := Q.setComp "B1.A0" pX v_;
+(if ¬((fb * 3) ≤ buf.length) then .error .outOfRange else
+(match Q.sbc (goSlice buf (fb * 2) (fb * 3)) with
+| none => (.error .setBytesCanonical)
+| some v_ => let pX := Q.setComp "B0.A1" pX v_;
+(if ¬((fb * 4) ≤ buf.length) then .error .outOfRange else
+(match Q.sbc (goSlice buf (fb * 3) (fb * 4)) with
+| none => (.error .setBytesCanonical)
+| some v_ => let pX := Q.setComp "B0.A0" pX v_;
+(let YSquared : F := P.zero;
+let Y : F := P.zero;
+(let YSquared := g pX;
+((if (Q.legendre YSquared == (-1 : Int)) then
+(.error (.new "invalid compressed coordinate: square root doesn't exist"))
+else
+(let Y := Q.sqrtU YSquared;
+(let Y := (if (P.lex Y) then
+(let Y := (if (mData == (128 : UInt8)) then
+(let Y := P.neg Y;
+Y)
+else
+Y);
+Y)
+else
+(let Y := (if (mData == (160 : UInt8)) then
+(let Y := P.neg Y;
+Y)
+else
+Y);
+Y));
+(let pY := Y;
+(if (subGroupCheck && (!(P.isInSubGroup pX pY))) then
+(.error (.new "invalid point: subgroup check failed"))
+else
+(.ok (pX, pY, (4 * fb))))))))))))))))))))))))) : Except GoErr (F × F × Nat));
+if ((mData == (0 : UInt8)) || (mData == (64 : UInt8))) then
+(if (decide (buf.length < (8 * fb))) then
+(.error .ErrShortBuffer)
+else
+k_2 ())
+else
+k_2 ())))))
+
 /-- `x³ + b` as the Go text computes it (`Square`, `Mul`, `Add` of `bCurveCoeff`) -/
 def goRhs {F : Type} (P : Prims F) (x : F) : F := P.add (P.mul (P.square x) x) P.bCurveCoeff
 /-- G2 of bw6-633 / bw6-761: `x³ + b'` with the twist coefficient -/
@@ -342,6 +638,15 @@ theorem bw6_761_G2_Bytes : GV.Gen.PointCodec.bw6_761.G2_Bytes P pX pY = goBytes3
 theorem bw6_761_G2_RawBytes : GV.Gen.PointCodec.bw6_761.G2_RawBytes P pX pY = goRawBytes3 96 P pX pY := rfl
 
 end inst
+
+section instTower
+variable {F B : Type} (P : Prims F) (Q : Comps F B) (pX pY : F) (buf : List UInt8) (sub : Bool)
+theorem bn254_G2_setBytes : GV.Gen.PointCodec.bn254.G2_setBytes P Q pX pY buf sub = goSetBytes2E2 32 (goRhsTwist P) P Q pX pY buf sub := rfl
+theorem bls12_377_G2_setBytes : GV.Gen.PointCodec.bls12_377.G2_setBytes P Q pX pY buf sub = goSetBytes3E2 48 (goRhsTwist P) P Q pX pY buf sub := rfl
+theorem bls12_381_G2_setBytes : GV.Gen.PointCodec.bls12_381.G2_setBytes P Q pX pY buf sub = goSetBytes3E2 48 (goRhsTwist P) P Q pX pY buf sub := rfl
+theorem bls24_315_G2_setBytes : GV.Gen.PointCodec.bls24_315.G2_setBytes P Q pX pY buf sub = goSetBytes3E4 40 (goRhsTwist P) P Q pX pY buf sub := rfl
+theorem bls24_317_G2_setBytes : GV.Gen.PointCodec.bls24_317.G2_setBytes P Q pX pY buf sub = goSetBytes3E4 40 (goRhsTwist P) P Q pX pY buf sub := rfl
+end instTower
 
 /-! ## the Go-exact decoder at the level of the model -/
 
